@@ -191,13 +191,30 @@ func (n *NFA) frag(re *syntax.Regexp) (int, int, error) {
 		if err != nil {
 			return 0, 0, err
 		}
-		n.addEps(in, a)
-		n.addEps(b, out)
-		if re.Op != syntax.OpPlus {
-			n.addEps(in, out)
-		}
-		if re.Op != syntax.OpQuest {
-			n.addEps(b, a)
+		// epsilon edges are added in the order of preference of Go's leftmost-first matching
+		// (greedy: repeat before leaving; non-greedy: leave first); the order is irrelevant for
+		// the language, it matters for preferredDFA
+		greedy := re.Flags&syntax.NonGreedy == 0
+		loop := re.Op != syntax.OpQuest
+		skip := re.Op != syntax.OpPlus
+		if greedy {
+			n.addEps(in, a)
+			if skip {
+				n.addEps(in, out)
+			}
+			if loop {
+				n.addEps(b, a)
+			}
+			n.addEps(b, out)
+		} else {
+			if skip {
+				n.addEps(in, out)
+			}
+			n.addEps(in, a)
+			n.addEps(b, out)
+			if loop {
+				n.addEps(b, a)
+			}
 		}
 	case syntax.OpRepeat:
 		// expand  x{m,n}
@@ -210,26 +227,39 @@ func (n *NFA) frag(re *syntax.Regexp) (int, int, error) {
 			n.addEps(cur, a)
 			cur = b
 		}
+		lazy := re.Flags&syntax.NonGreedy != 0
 		if re.Max < 0 {
 			a, b, err := n.frag(re.Sub[0])
 			if err != nil {
 				return 0, 0, err
 			}
-			n.addEps(cur, a)
-			n.addEps(b, a)
-			n.addEps(b, out)
-			n.addEps(cur, out)
+			if lazy {
+				n.addEps(cur, out)
+				n.addEps(cur, a)
+				n.addEps(b, out)
+				n.addEps(b, a)
+			} else {
+				n.addEps(cur, a)
+				n.addEps(cur, out)
+				n.addEps(b, a)
+				n.addEps(b, out)
+			}
 		} else {
-			n.addEps(cur, out)
 			for i := re.Min; i < re.Max; i++ {
 				a, b, err := n.frag(re.Sub[0])
 				if err != nil {
 					return 0, 0, err
 				}
-				n.addEps(cur, a)
-				n.addEps(b, out)
+				if lazy {
+					n.addEps(cur, out)
+					n.addEps(cur, a)
+				} else {
+					n.addEps(cur, a) // greedy: one more copy is preferred to leaving
+					n.addEps(cur, out)
+				}
 				cur = b
 			}
+			n.addEps(cur, out)
 		}
 	default:
 		return 0, 0, fmt.Errorf("unsupported regexp operator %v in %s", re.Op, re)
@@ -340,6 +370,100 @@ func dfaFromRegexp(al *Alphabet, re *syntax.Regexp) (*DFA, error) {
 	n.start = in
 	n.acc[out] = true
 	return n.determinize(), nil
+}
+
+// preferredDFA builds, for a pattern used anchored at the start of the input, the automaton
+// of Go's leftmost-first matching: its states are the priority-ordered thread lists of the
+// Thompson simulation, cut behind the first accepting thread (a match of a higher-priority
+// thread discards every lower-priority alternative).  A state is accepting when its list
+// contains the accepting NFA state, so the language of the result is
+//   PM = { w : the match the engine selects on an input that starts with w can end at |w| }
+// and the match finally selected on an input is its longest prefix in PM that the run reaches.
+// L(PM) is a subset of the pattern's language; where they differ the order of alternatives
+// (or greediness) makes the engine stop earlier than the word.
+func preferredDFA(al *Alphabet, re *syntax.Regexp) (*DFA, error) {
+	n := newNFA(al)
+	in, out, err := n.frag(re)
+	if err != nil {
+		return nil, err
+	}
+	// ordered closure: depth-first, epsilon edges in order of preference, first visit wins
+	var addClosure func(list *[]int, seen map[int]bool, s int)
+	addClosure = func(list *[]int, seen map[int]bool, s int) {
+		if seen[s] {
+			return
+		}
+		seen[s] = true
+		hasTrans := false
+		for range n.trans[s] {
+			hasTrans = true
+			break
+		}
+		if hasTrans || s == out {
+			*list = append(*list, s) // a thread waiting for input, or the accepting thread
+		}
+		for _, t := range n.eps[s] {
+			addClosure(list, seen, t)
+		}
+	}
+	cut := func(list []int) []int {
+		for i, s := range list {
+			if s == out {
+				return list[:i+1]
+			}
+		}
+		return list
+	}
+	key := func(list []int) string {
+		var sb strings.Builder
+		for _, s := range list {
+			fmt.Fprintf(&sb, "%d,", s)
+		}
+		return sb.String()
+	}
+	d := &DFA{al: al}
+	index := map[string]int{}
+	var lists [][]int
+	add := func(list []int) int {
+		k := key(list)
+		if i, ok := index[k]; ok {
+			return i
+		}
+		i := len(lists)
+		index[k] = i
+		lists = append(lists, list)
+		d.next = append(d.next, make([]int, al.n()))
+		acc := false
+		for _, s := range list {
+			if s == out {
+				acc = true
+			}
+		}
+		d.acc = append(d.acc, acc)
+		return i
+	}
+	var init []int
+	addClosure(&init, map[int]bool{}, in)
+	d.start = add(cut(init))
+	for i := 0; i < len(lists); i++ {
+		if len(lists) > 20000 {
+			return nil, fmt.Errorf("preferredDFA: state explosion")
+		}
+		for c := 0; c < al.n(); c++ {
+			var nxt []int
+			seen := map[int]bool{}
+			for _, s := range lists[i] {
+				if s == out {
+					break // lower-priority threads were cut; the accepting thread itself does not move
+				}
+				for _, t := range n.trans[s][c] {
+					addClosure(&nxt, seen, t)
+				}
+			}
+			d.next[i][c] = add(cut(nxt))
+		}
+	}
+	return d, nil
 }
 
 func dfaFromString(al *Alphabet, s string) *DFA {
